@@ -309,7 +309,7 @@ Proof.
   - rewrite app_nil_r. rewrite (partition_none 58 h H58). reflexivity.
   - rewrite (partition_app 58 h ds H58).
     rewrite (forallb_not_in_mem [64; 47; 63; 35; 93] ds 93 PD eq_refl), andb_false_r.
-    rewrite PA, PI. reflexivity.
+    unfold port_of. rewrite PA, PI. reflexivity.
 Qed.
 
 Lemma parse_host_plain h b :
@@ -345,9 +345,9 @@ Proof.
   { rewrite memN_app. cbn [memN]. rewrite N.eqb_refl, orb_true_r. reflexivity. }
   rewrite N.eqb_refl, M93. cbn [andb]. rewrite (partition_app 93 b ptxt H93b).
   destruct port_ok as [[-> ->]|[ds [p [-> [-> [PI [PA [PD _]]]]]]]].
-  - change (all_ascii []) with true. change (py_int []) with (@None Z). cbn iota beta.
-    cbn [app]. rewrite <- app_assoc. reflexivity.
-  - rewrite PA, PI. cbn [app]. rewrite <- app_assoc. reflexivity.
+  - unfold port_of. change (all_ascii []) with true. change (py_int []) with (@None Z). cbn iota beta.
+    cbn [app mbind]. rewrite <- app_assoc. reflexivity.
+  - unfold port_of. rewrite PA, PI. cbn [app mbind]. rewrite <- app_assoc. reflexivity.
 Qed.
 
 Lemma last_is_snoc c x : last_is c (x ++ [c]) = true.
